@@ -106,8 +106,9 @@ func (core *JApiCore) collectPathVariables(d *directive.Directive) *jerr.JApiErr
 	parentDirective := *d.Parent
 
 	if len(core.rawPathVariables) != 0 {
-		prevParent := core.rawPathVariables[len(core.rawPathVariables)-1].parentDirective
-		if prevParent.Equal(parentDirective) {
+		// The same directive, not an equal one: the copies of a macro body pasted
+		// in several places share the position of their keywords.
+		if core.rawPathVariables[len(core.rawPathVariables)-1].parent == d.Parent {
 			return d.KeywordError(jerr.NotUniqueDirective)
 		}
 	}
@@ -115,6 +116,7 @@ func (core *JApiCore) collectPathVariables(d *directive.Directive) *jerr.JApiErr
 	core.rawPathVariables = append(core.rawPathVariables, rawPathVariable{
 		pathDirective:   *d,
 		parentDirective: parentDirective,
+		parent:          d.Parent,
 		schema:          s.JSchema,
 		parameters:      pp,
 	})
